@@ -551,7 +551,12 @@ class SourceGenerator(NodeVisitor):
         self.write(node.arg)
 
     def visit_Constant(self, node):
-        self.write(repr(node.value))
+        if isinstance(node.value, (float, complex)):
+            # repr() of an infinite value is "inf", which is a name and
+            # not a literal
+            self.write(repr(node.value).replace("inf", "1e309"))
+        else:
+            self.write(repr(node.value))
 
     def visit_Tuple(self, node):
         self.write("(")
